@@ -247,7 +247,7 @@ func c14Catch(ctx *vfCtx, prefix string, lists [2][]c14Item, nilPDU bool, f func
 			fn := vfPanicFunc(st)
 			sig := prefix + "/panic/" + fn
 			switch {
-			case c14HasKind(lists, "null"):
+			case c14HasKind(lists, "null") && strings.Contains(string(st), "newEventFromUntrustedJSONV"):
 				// res := &eventVn{}; json.Unmarshal(raw, &res) makes res nil for the text null; the
 				// dereference is in another function per event format
 				sig = prefix + "/panic/null-event"
